@@ -10,6 +10,7 @@ import (
 	"strings"
 
 	cli "github.com/jawher/mow.cli"
+	"github.com/jawher/mow.cli/internal/lexer"
 	"github.com/jawher/mow.cli/internal/zverif/ref"
 )
 
@@ -32,6 +33,8 @@ type LangObs struct {
 	Err        string
 	Panic      string
 	SpecError  bool // Run panicked with a spec (parse) error
+	SpecPos    int
+	SpecMsg    string // result of Error(), or "Error() panicked: .."
 	Exits      []int
 	Lists      [][]string // per container, the values it holds inside the Action (or after Run when rejected)
 	SetByUser  []bool
@@ -133,9 +136,19 @@ func runLang(d *ref.Decl, spec string, argv []string, lo langOpts) LangObs {
 	o := runDirect(&sharedBuf, func() error { return app.Run(full) })
 	obs.Exits = o.Exits
 	if o.Panicked {
-		obs.Panic = fmt.Sprint(o.PanicVal)
-		if isSpecError(o.PanicVal) {
+		obs.Panic = safeSprint(o.PanicVal)
+		if pe, ok := o.PanicVal.(*lexer.ParseError); ok {
 			obs.SpecError = true
+			obs.SpecPos = pe.Pos
+			func() {
+				defer func() {
+					if r := recover(); r != nil {
+						obs.SpecMsg = fmt.Sprint("Error() panicked: ", r)
+					}
+				}()
+				obs.SpecMsg = pe.Error()
+			}()
+			obs.Panic = "spec error at " + fmt.Sprint(pe.Pos) + ": " + pe.Msg
 		}
 	}
 	if o.Err != nil {
@@ -153,4 +166,13 @@ func runLang(d *ref.Decl, spec string, argv []string, lo langOpts) LangObs {
 
 func (o *LangObs) Summary() string {
 	return fmt.Sprintf("accepted=%v action_runs=%d err=%q panic=%q exits=%v", o.Accepted, o.ActionRuns, o.Err, o.Panic, o.Exits)
+}
+
+func safeSprint(v interface{}) (s string) {
+	defer func() {
+		if r := recover(); r != nil {
+			s = fmt.Sprintf("<%T: printing it panicked>", v)
+		}
+	}()
+	return fmt.Sprint(v)
 }
